@@ -26,6 +26,21 @@ favoured): gens.cell_vects / gens.cell_origin multiply vectors and origin by it,
 same crystal expressed in another length unit (atomman's working units may be SI).  Nothing in the documented behaviour
 of the separation functions depends on the unit, and every tolerance of the oracles is relative to the cell size.
 All 8 periodicity settings are looped over by the oracle, so pbc is not part of the case.
+
+Generator classes carried over from the other properties (see the audit in pbt/checks/c02.py):
+  cell['sym'] = None | {'perm': relabelling of the three cell vectors, 'axes': permutation of the Cartesian axes, 'signs':
+      their signs}: the EXACTLY structured version of the cell (cell_vects below: rows relabelled, columns permuted and
+      negated - no arithmetic, so upper-triangular cells, triangular cells with negative diagonal, left-handed cells and signed
+      permutations of an orthogonal cell are met with exact zeros);
+  kind 'thresh': near-threshold pairs (separation within 1e-3..1e-13 relative of HALF a cell vector - almost a tie between two
+      images; points within 1e-3..1e-15 of a face, inside and outside) in cells with almost-zero tilts (1e-3..1e-13 lx);
+  kind 'decades': many-to-many pairs whose separations span 8+ orders of magnitude in ONE call (row i: 10^-k_i of the cell);
+  'idt' / 'lim': integer dtype (int8 ... uint64, big-endian, bool) in which whole-number positions are handed to am.dvect /
+      am.dmag ('spell' 'narrowint' = ndarray of that dtype, 'npscalars' = nested lists of its numpy scalars), the points shifted
+      by a whole number so that the largest ('hi') / smallest ('lo') coordinate IS the limit of the dtype;
+  'fdtype' 'f64be' / 'f32be': big-endian floating storage; 'idx' 'i8arr' ... : narrow / unsigned / big-endian index dtypes;
+  'reuse': after the judged calls the caller overwrites in place the arrays it was handed OUT and the ones it handed IN
+      (positions, pbc flags, System positions), re-defines the Box through its setter and calls again with the SAME objects.
 """
 import functools
 
@@ -65,9 +80,17 @@ _POSTYPE = st.sampled_from(['float', 'intlist', 'int64', 'int32'])
 _PBCROT = st.integers(0, 15)
 _PBCSPELL = st.sampled_from(['list', 'tuple', 'array'])
 _ROUTE = st.sampled_from(['func', 'func', 'func', 'func', 'sys_pos', 'sys_idx', 'sys_idx', 'sys_mix'])
-_IDX = st.sampled_from(['int', 'list', 'array', 'slice', 'neg', 'npint', 'mask'])
+_IDX = st.sampled_from(['int', 'list', 'array', 'slice', 'neg', 'npint', 'mask', 'int', 'list', 'array', 'slice', 'neg', 'npint', 'mask',
+                        'i8arr', 'u8arr', 'bearr', 'u64s', 'i16neg'])
 _BOOL = st.booleans()
-_FDTYPE = st.sampled_from(['f64', 'f64', 'f64', 'f64', 'f64', 'f32', 'f32', 'f16'])
+_FDTYPE = st.sampled_from(['f64', 'f64', 'f64', 'f64', 'f64', 'f32', 'f32', 'f16', 'f64', 'f64be', 'f32be'])
+# whole-number Cartesian positions (kind intcart): integer-typed spellings favoured
+_SPELL_WHOLE = st.sampled_from(['intlist', 'intarray', 'narrowint', 'narrowint', 'narrowint', 'npscalars', 'array', 'list', 'fview',
+                                'readonly', 'forder', 'tuple'])
+IDTYPES = ('i1', 'u1', 'i2', 'u2', '>i2', 'i4', 'u4', '>i4', '>u4', 'i8', 'u8', '>i8', 'bool')
+_IDT = st.sampled_from(IDTYPES + ('i1', 'u1', 'u2', 'u8'))
+_LIM = st.sampled_from(['hi', 'hi', 'lo', None])
+_REUSE = st.integers(0, 9).map(lambda k: k < 5)
 _AFTER = st.integers(0, 3)
 # overall length scale 10^k of the cell, its origin and the positions; index 0 (k = 0) is what cases shrink to
 _SCALE_K = (0, 0, 0, 0, 0, 0, 0, 0, 0, 0, 0, 0, -10, -10, -10, -12, -11, -9, -8, -7, -6, -5, -4, -3, -2, -1, 1, 2, 3, 4, 5, 6)
@@ -154,6 +177,148 @@ _DYCELLS = dyadic_cells()
 _INTCELLS = integer_cells()
 
 
+# ----------------------------------------------------------------------------- exactly structured cells
+# cell['sym']: the three cell vectors relabelled (perm), the Cartesian axes permuted (axes) and mirrored (signs).  Only
+# re-ordering and negation: every zero of the triangular form stays an exact zero, in another place.
+
+_PERMS = ((0, 1, 2), (1, 2, 0), (2, 0, 1), (2, 1, 0), (0, 2, 1), (1, 0, 2))
+_SIGNS = tuple((1 - 2 * (k & 1), 1 - 2 * ((k >> 1) & 1), 1 - 2 * ((k >> 2) & 1)) for k in range(8))
+_SYMK = st.integers(0, 6 * 6 * 8 - 1)
+# 0..5 none; 6,7 'reversed' (lower-triangular -> upper-triangular); 8 negated diagonal; 9 cyclic relabelling of vectors and
+# axes together; 10 a left-handed mirror; 11..13 any signed permutation
+_SYMSEL = st.integers(0, 13)
+
+
+def _sym(draw):
+    k = draw(_SYMSEL)
+    if k <= 5:
+        return None
+    if k <= 7:
+        return {'perm': [2, 1, 0], 'axes': [2, 1, 0], 'signs': [1, 1, 1]}
+    if k == 8:
+        j = draw(_SYMK) % 7 + 1
+        return {'perm': [0, 1, 2], 'axes': [0, 1, 2], 'signs': list(_SIGNS[j])}
+    if k == 9:
+        return {'perm': [1, 2, 0], 'axes': [1, 2, 0], 'signs': [1, 1, 1]}
+    if k == 10:
+        return {'perm': [0, 1, 2], 'axes': [0, 1, 2], 'signs': [1, 1, -1]}
+    j = draw(_SYMK)
+    sym = {'perm': list(_PERMS[j % 6]), 'axes': list(_PERMS[(j // 6) % 6]), 'signs': list(_SIGNS[j // 36])}
+    if sym['perm'] == [0, 1, 2] and sym['axes'] == [0, 1, 2] and sym['signs'] == [1, 1, 1]:
+        return None
+    return sym
+
+
+def cell_vects(c):
+    """gens.cell_vects, then the exact re-ordering / mirroring c['sym']"""
+    V = gens.cell_vects(c)
+    sym = c.get('sym')
+    if sym:
+        V = V[list(sym['perm'])][:, list(sym['axes'])] * np.array(sym['signs'], dtype=float)
+    return V
+
+
+def cell_origin(c):
+    o = gens.cell_origin(c)
+    sym = c.get('sym')
+    if sym:
+        o = o[list(sym['axes'])] * np.array(sym['signs'], dtype=float)
+    return o
+
+
+def sym_labels(c):
+    """labels of the exactly structured classes (decided from the cell the case asks for)"""
+    sym = c.get('sym')
+    if not sym:
+        return set()
+    labs = {'sym'}
+    V = cell_vects(c)
+    if list(sym['perm']) != [0, 1, 2]:
+        labs.add('sym_relabel')
+    if float(np.linalg.det(V / np.abs(V).max())) < 0:
+        labs.add('sym_lefthanded')
+    lower0 = V[1, 0] == 0 and V[2, 0] == 0 and V[2, 1] == 0
+    upper0 = V[0, 1] == 0 and V[0, 2] == 0 and V[1, 2] == 0
+    if lower0 and not upper0:
+        labs.add('sym_upper')           # upper-triangular with at least one non-zero entry above the diagonal
+    if (lower0 or upper0) and np.any(np.diag(V) < 0):
+        labs.add('sym_negdiag')
+    if not (lower0 or upper0):
+        cnt = (V != 0).sum()
+        labs.add('sym_signed_perm' if cnt == 3 else 'sym_mixed')
+    return labs
+
+
+# ----------------------------------------------------------------------------- near-threshold values, decades
+
+_EXP_TILT = st.integers(3, 13)
+_EXP_TIE = st.integers(3, 13)
+_EXP_FACE = st.integers(3, 15)
+_SIGN = st.sampled_from([-1.0, 1.0])
+_TRI = st.integers(0, 2)
+_LOW = st.integers(0, 4500).map(lambda k: k / 10000.0)         # [0, 0.45]
+_MASK7 = st.integers(1, 7)
+
+
+def _tiny_tilt_cell(draw):
+    """a mild orthogonal / triclinic cell in which one to three tilts are 10^-k lx (k = 3..13): almost orthogonal,
+    almost monoclinic.  (Box zeroes components below 1e-9 of the largest one; the oracle reads the cell back from the Box.)"""
+    c = dict(draw(_CELLS_MILD))
+    m = draw(_MASK7)
+    for bit, key, ref in ((1, 'xy', 'lx'), (2, 'xz', 'lx'), (4, 'yz', 'ly')):
+        if m & bit:
+            c[key] = draw(_SIGN) * 10.0 ** (-draw(_EXP_TILT)) * c[ref]
+        elif draw(_BOOL):
+            c[key] = 0.0
+    return c
+
+
+def _near_tie_point(draw, s0):
+    """s1 = s0 +- (1/2)(1 + e) along one to three cell vectors, e = +-10^-k: the direct separation and its image through
+    that face are almost equally long"""
+    m = draw(_MASK7)
+    s1 = []
+    for j in range(3):
+        if m & (1 << j):
+            e = draw(_SIGN) * 10.0 ** (-draw(_EXP_TIE))
+            s1.append(s0[j] + 0.5 * (1.0 + e))
+        else:
+            s1.append(s0[j] + draw(_LOW))
+    return s1
+
+
+def _near_face_point(draw):
+    """relative coordinates of which one to three are 10^-k away from 0 or 1, inside or outside the cell"""
+    m = draw(_MASK7)
+    s = []
+    for j in range(3):
+        if m & (1 << j):
+            s.append(float(draw(_BOOL)) + draw(_SIGN) * 10.0 ** (-draw(_EXP_FACE)))
+        else:
+            s.append(draw(_IN))
+    return s
+
+
+_DEC_LO = st.integers(0, 2)
+_DEC_HI = st.integers(10, 14)
+_DEC_ANY = st.integers(0, 14)
+
+
+def _decade_rows(draw, n, p0):
+    """row i of p1 = row i of p0 + 10^-k_i u_i (relative coordinates): k runs from k_lo <= 2 to k_hi >= 10 within ONE array"""
+    ks = [draw(_DEC_LO), draw(_DEC_HI)] + [draw(_DEC_ANY) for _ in range(n - 2)]
+    r = draw(st.integers(0, n - 1))
+    ks = ks[r:] + ks[:r]
+    p1 = []
+    for i in range(n):
+        u = [draw(_DIR), draw(_DIR), draw(_DIR)]
+        if max(abs(x) for x in u) < 0.05:
+            u[i % 3] = 1.0
+        base = p0[i % len(p0)]
+        p1.append([base[j] + 10.0 ** (-ks[i]) * u[j] for j in range(3)])
+    return p1
+
+
 # ----------------------------------------------------------------------------- object history
 # The separation functions read the cell from a Box OBJECT, and a Box (and the System holding it) can be changed in place.
 # A history makes the Box describe another cell first, optionally lets the judged functions see it in that state, and then
@@ -169,7 +334,7 @@ _STRAIN = st.integers(900, 1100).map(lambda k: k / 1000.0)
 _SHEAR = st.integers(-100, 100).map(lambda k: k / 1000.0)
 _PBCI = st.integers(0, 7)
 _TEN = st.integers(0, 9)
-_SUB = st.integers(0, 21)
+_SUB = st.integers(0, 28)
 
 
 def _strained(draw, c0):
@@ -212,51 +377,104 @@ def _near_partner(draw, V, s0):
     return [min(1.0, max(0.0, round(float(x), 6))) for x in s1]
 
 
+def _int_limits(idt):
+    """(lowest, highest) whole number of the integer dtype `idt` that a float64 holds exactly"""
+    if idt == 'bool':
+        return 0, 1
+    ii = np.iinfo(np.dtype(idt))
+    return max(int(ii.min), -2 ** 53), min(int(ii.max), 2 ** 53)
+
+
 @st.composite
 def pairs_cases(draw, incell_share=7, near_share=0, routes=True, allow_cart=True):
     """general generator of DESIGN C02: cells as C01; 70 % of the point sets in [0,1]^3 (incl. faces), 30 % in [-3,4]^3"""
     sub = draw(_SUB)
     cart = False
-    if sub <= 1 and allow_cart:
+    if sub <= 2 and allow_cart:
         cell = draw(_INTCELLS)
         kind = 'intcart'
         cart = True
-    elif sub <= 4:
+    elif sub <= 5:
         cell = draw(_DYCELLS)
         kind = 'dyadic'
-    elif sub <= 8:
+    elif sub <= 9:
         cell = draw(_CELLS_MILD)
         kind = 'mild'
-    else:
+    elif sub <= 22:
         cell = draw(_CELLS)
         kind = 'generic'
+    elif sub <= 25:
+        cell = _tiny_tilt_cell(draw) if draw(_TRI) else draw(_CELLS_MILD)
+        kind = 'thresh'
+    else:
+        cell = draw(_CELLS_MILD if draw(_BOOL) else _CELLS)
+        kind = 'decades'
+    # the exactly structured version of the cell (before the points: 'near' partners are built in the cell really used)
+    cell = dict(cell)
+    cell['sym'] = _sym(draw)
     shape, n0, n1 = _shape_counts(draw)
+    if kind == 'decades':
+        n0 = n1 = draw(st.integers(4, 6))       # many-to-many: each row has its own magnitude
     if cart:
         p0 = [draw(_PT_INT) for _ in range(n0)]
         p1 = [draw(_PT_INT) for _ in range(n1)]
     elif kind == 'dyadic':
         p0 = [draw(_PT_DYAD) for _ in range(n0)]
         p1 = [draw(_PT_DYAD) for _ in range(n1)]
+    elif kind == 'thresh':
+        if draw(_TRI):      # almost a tie between the direct separation and an image (both points inside the cell)
+            p0 = [[draw(_LOW), draw(_LOW), draw(_LOW)] for _ in range(n0)]
+            p1 = [_near_tie_point(draw, p0[i % n0]) for i in range(n1)]
+            kind += '+tie'
+        else:               # points almost on a face
+            p0 = [_near_face_point(draw) for _ in range(n0)]
+            p1 = [_near_face_point(draw) for _ in range(n1)]
+            kind += '+face'
+    elif kind == 'decades':
+        p0 = [draw(_PT_IN) for _ in range(n0)]
+        p1 = _decade_rows(draw, n1, p0)
     else:
         incell = draw(st.integers(0, 9)) < incell_share
         pt = _PT_IN if incell else _PT_WIDE
         p0 = [draw(pt) for _ in range(n0)]
         p1 = [draw(pt) for _ in range(n1)]
         if incell and near_share and draw(st.integers(0, 9)) < near_share:
-            V = gens.cell_vects(cell)
+            V = cell_vects(cell)
             p1 = [_near_partner(draw, V, p0[i % n0]) for i in range(n1)]
             kind += '+near'
     route = draw(_ROUTE) if routes else 'func'
     hist = _history(draw, cell)
     # the length unit: attached last, everything above is in units of it
-    cell = dict(cell)
     cell['scale'] = draw(_SCALE_WHOLE if cart else _SCALE)
+    idt = lim = None
+    if cart:
+        # integer dtype in which the whole-number positions are handed to the free functions, and (2 cases in 3) a whole-number
+        # shift of points and origin that puts the largest / smallest coordinate ON the limit of that dtype (unit 1 then)
+        idt, lim = draw(_IDT), draw(_LIM)
+        lo, hi = _int_limits(idt)
+        if idt == 'bool':
+            p0 = [[float(int(v) % 2) for v in q] for q in p0]
+            p1 = [[float(int(v) % 2) for v in q] for q in p1]
+            lim = None
+            cell['scale'] = 1.0
+        elif lim is not None:
+            allv = [v for q in p0 + p1 for v in q]
+            shift = float(hi - int(max(allv))) if (lim == 'hi' or (lo == 0 and draw(_BOOL))) else float(lo - int(min(allv)))
+            p0 = [[v + shift for v in q] for q in p0]
+            p1 = [[v + shift for v in q] for q in p1]
+            org = list(cell['origin'])      # the origin goes along (by the same Cartesian shift, whatever cell['sym'] does to it)
+            sym = cell['sym'] or {'axes': [0, 1, 2], 'signs': [1, 1, 1]}
+            for j in range(3):
+                org[sym['axes'][j]] += shift * sym['signs'][j]
+            cell['origin'] = org
+            cell['scale'] = 1.0
     if hist is not None:    # the Box object usually described a cell in the same unit before, sometimes in another one
         hist['cell']['scale'] = cell['scale'] if draw(_TEN) < 8 else draw(_SCALE)
     return {'cell': cell, 'cart': cart, 'p0': p0, 'p1': p1, 'flat0': n0 == 1 and draw(_BOOL),
-            'flat1': n1 == 1 and draw(_BOOL), 'spell': draw(_SPELL), 'pbcspell': draw(_PBCSPELL),
+            'flat1': n1 == 1 and draw(_BOOL), 'spell': draw(_SPELL_WHOLE if cart else _SPELL), 'pbcspell': draw(_PBCSPELL),
             'route': route, 'idx': draw(_IDX), 'kind': kind, 'postype': draw(_POSTYPE) if cart else 'float',
-            'pbcrot': draw(_PBCROT), 'magfirst': draw(_BOOL), 'hist': hist, 'fdtype': draw(_FDTYPE), 'after': draw(_AFTER)}
+            'pbcrot': draw(_PBCROT), 'magfirst': draw(_BOOL), 'hist': hist, 'fdtype': draw(_FDTYPE), 'after': draw(_AFTER),
+            'idt': idt, 'lim': lim, 'reuse': draw(_REUSE)}
 
 
 @functools.lru_cache(maxsize=None)
@@ -284,7 +502,7 @@ _DHOW = st.sampled_from(['vects=', 'set_vects', 'set_avect', 'sys_box_set', 'sys
 _DSETPOS = st.sampled_from(['slice', 'attr', 'prop', 'prop_scaled', 'view', 'keep'])
 # floating dtype in which the positions of system 0 / system 1 are stored (Atoms keeps a float32 / float16 pos dtype)
 _FSTORE = st.sampled_from([None, None, None, None, None, None, ['f32', 'f32'], ['f32', 'f32'], ['f32', 'f64'], ['f64', 'f32'],
-                           ['f16', 'f16'], ['f16', 'f32']])
+                           ['f16', 'f16'], ['f16', 'f32'], None, ['f64be', 'f64be'], ['f32be', 'f32be'], ['f64be', 'f32']])
 
 
 def _whole(x):
@@ -302,7 +520,8 @@ def displacement_cases(draw):
     ('f64'|'f32'|'f16') in which the two systems STORE their positions (the oracle judges the positions the systems really
     hold, which are exact numbers); 'after': whether displacement() is also called (and judged) for the other reference cells
     before every result handed out earlier is compared with its snapshot."""
-    c0 = draw(_CELLS_MILD if draw(_BOOL) else _CELLS)
+    c0 = dict(draw(_CELLS_MILD if draw(_BOOL) else _CELLS))
+    c0['sym'] = _sym(draw)          # the exactly structured version of the cell (kept by the 'same' / 'strained' cell of system 1)
     mode = draw(_MODE)
     if mode == 'same':
         c1 = dict(c0)
@@ -321,12 +540,20 @@ def displacement_cases(draw):
             rel1.append(draw(_PT_IN))
         else:   # displaced and wrapped back into the cell: the realistic use of displacement()
             rel1.append([round((rel0[i][j] + draw(_SMALL)) % 1.0, 6) for j in range(3)])
+    special = draw(_TEN)
+    if special == 0 and n >= 2:
+        # displacements of the atoms spanning 8+ orders of magnitude in ONE call (a relaxed crystal: most atoms hardly move)
+        rel1 = _decade_rows(draw, n, rel0)
+    elif special == 1:
+        # displaced by almost exactly half a cell vector: the direct separation and its image are almost equally long
+        rel0 = [[min(v, 0.45) for v in q] for q in rel0]
+        rel1 = [_near_tie_point(draw, q) for q in rel0]
     case = {'cell0': c0, 'cell1': c1, 'mode': mode, 'rel0': rel0, 'rel1': rel1, 'ref': draw(_REF),
             'pbc_other': draw(_PBCI), 'cart': False, 'itype': None, 'iform': None, 'build': draw(_BUILD), 'hist': None}
     if draw(_TEN) < 2:
         # whole-number Cartesian positions (lattice sites counted in whole units) in cells whose edges are not whole numbers
-        V0, o0 = gens.cell_vects(c0), gens.cell_origin(c0)
-        V1, o1 = gens.cell_vects(c1), gens.cell_origin(c1)
+        V0, o0 = cell_vects(c0), cell_origin(c0)
+        V1, o1 = cell_vects(c1), cell_origin(c1)
         itype = draw(_ITYPE)
         P0, P1 = [], []
         for i in range(n):
@@ -356,4 +583,6 @@ def displacement_cases(draw):
             case['hist'][k] = dict(case['hist'][k], scale=scale if draw(_TEN) < 8 else draw(_SCALE))
     case['fstore'] = draw(_FSTORE)
     case['after'] = draw(_BOOL)
+    case['special'] = None if (case['cart'] or (special == 0 and n < 2)) else {0: 'decades', 1: 'tie'}.get(special)
+    case['reuse'] = draw(_REUSE)
     return case
